@@ -317,14 +317,25 @@ theorem builder_stack_empty (scope skips : Nat → Bool) (exts : List When) (t :
 /-! ## the general walk: pruning raised by `depart_*`, nodes visited from inside a `visit_*`
 
 `walkaboutG inl dact` is what the code does when the main visitor's `depart_*` of node `n` raises `dact n`
-and its `visit_*` of node `n` visits the nodes `inl n` itself.  The full statements
+and its `visit_*` of node `n` visits the nodes `inl n` itself (`NodeVisitor.generic_visit`).
+
+Since 97d973e the statements hold for EVERY `dact` (`general_walk`, `balanced_general`, `escape_general`); what
+the code did before is kept as `walkaboutGOld` with the historical counterexamples `old_departure_prune_unbalanced`,
+`old_departure_prune_escape`.  Nodes visited by a `visit_*` method itself are entered and never left — that is
+what `generic_visit` does, today as before (`inline_visit_unbalanced_counterexample`,
+`inline_visit_order_counterexample`); since 090633d the AST builder does not do it any more (`visit_Expr` does not
+call `generic_visit`), so the hypothesis `NoInline` is true of every walk pydoctor performs; the full statement
+without it,
 
     ∀ inl dact exts t e, e < exts.length → isDyck (restrict (.ext e) (walkaboutG inl dact exts t).1) = true
-    ∀ inl dact exts t, (walkaboutG inl dact exts t).2 = some x → x = .skipSiblings
 
-are FALSE of the current code (`departure_prune_unbalanced_counterexample`, `departure_prune_escape_counterexample`,
-`inline_visit_unbalanced_counterexample`, `inline_visit_order_counterexample`); they hold — and every theorem above
-applies, because the walk IS `walkabout` — when no departure raises and no visit method visits nodes itself. -/
+stays false. -/
+
+/-- no `visit_*` of a node of the tree visits other nodes itself -/
+def NoInline (inl : Nat → List Nat) (l : List Nat) : Prop := ∀ n ∈ l, inl n = []
+
+instance (inl : Nat → List Nat) (l : List Nat) : Decidable (NoInline inl l) := by
+  unfold NoInline; exact inferInstance
 
 /-- no `depart_*` of a node of `t` raises, no `visit_*` of a node of `t` visits other nodes itself -/
 def Plain (inl : Nat → List Nat) (dact : Nat → Act) (l : List Nat) : Prop :=
@@ -339,80 +350,133 @@ theorem visitEventsG_plain (inl : Nat → List Nat) (exts : List When) (id : Nat
     visitEventsG inl exts id = visitEvents exts id := by
   simp [visitEventsG, visitEvents, h]
 
-theorem finishG_plain (dact : Nat → Act) (exts : List When) (id : Nat) (act : Act) (tr : List Event)
-    (extOnly : Bool) (h : dact id = .none) :
+/-- the tail of `walkabout`: everybody leaves; SkipSiblings goes on if the visit raised it, or the
+departure did (and ran) -/
+theorem finishG_eq (dact : Nat → Act) (exts : List When) (id : Nat) (act : Act) (tr : List Event)
+    (extOnly : Bool) :
     finishG dact exts id act tr extOnly =
-      (tr ++ departEvents exts id extOnly, if act = .skipSiblings then some .skipSiblings else none) := by
-  cases extOnly <;> simp [finishG, departEventsG, departEvents, h]
+      (tr ++ departEvents exts id extOnly,
+        excOf (act == .skipSiblings || (!extOnly && dact id == .skipSiblings))) := by
+  cases extOnly <;> cases h : dact id <;> cases act <;>
+    simp [finishG, departEventsG, departEvents, excOf, h]
 
 mutual
-theorem walkaboutG_plain (inl : Nat → List Nat) (dact : Nat → Act) (exts : List When) :
-    (t : Tree) → Plain inl dact (ids t) →
-      walkaboutG inl dact exts t = ((walkabout exts t).1, excOf (walkabout exts t).2)
+theorem walkaboutG_spec (inl : Nat → List Nat) (dact : Nat → Act) (exts : List When) :
+    (t : Tree) → NoInline inl (ids t) →
+      walkaboutF (finishG dact exts) inl exts t =
+        (specTrace exts (pruneG dact t),
+          match t with | .node id act _ => excOf (stopsG dact id act))
   | .node id act cs => by
     intro h
-    have hid : inl id = [] ∧ dact id = .none := h id (by simp [ids])
-    have hcs : Plain inl dact (idsList cs) := fun n hn => h n (by simp [ids, hn])
-    obtain ⟨k1, k2⟩ := walkChildrenG_plain inl dact exts cs hcs
+    have hid : inl id = [] := h id (by simp [ids])
+    have hcs : NoInline inl (idsList cs) := fun n hn => h n (by simp [ids, hn])
+    obtain ⟨k1, k2⟩ := walkChildrenG_spec inl dact exts cs hcs
     cases act <;>
       rcases k2 with k2 | k2 <;>
-      simp [walkaboutG, walkabout, excOf, k1, k2, finishG_plain, visitEventsG_plain, hid.1, hid.2]
-theorem walkChildrenG_plain (inl : Nat → List Nat) (dact : Nat → Act) (exts : List When) :
-    (ts : List Tree) → Plain inl dact (idsList ts) →
-      (walkChildrenG inl dact exts ts).1 = walkChildren exts ts ∧
-      ((walkChildrenG inl dact exts ts).2 = none ∨ (walkChildrenG inl dact exts ts).2 = some .skipSiblings)
-  | [] => by intro _; simp [walkChildrenG, walkChildren]
-  | t :: ts => by
+      simp [walkaboutF, pruneG, specTrace, specList, excOf, k1, k2, finishG_eq, visitEventsG_plain, hid,
+        stopsG, mainDeparts]
+theorem walkChildrenG_spec (inl : Nat → List Nat) (dact : Nat → Act) (exts : List When) :
+    (ts : List Tree) → NoInline inl (idsList ts) →
+      (walkChildrenF (finishG dact exts) inl exts ts).1 = specList exts (pruneListG dact ts) ∧
+      ((walkChildrenF (finishG dact exts) inl exts ts).2 = none ∨
+        (walkChildrenF (finishG dact exts) inl exts ts).2 = some .skipSiblings)
+  | [] => by intro _; simp [walkChildrenF, pruneListG, specList]
+  | (.node id act cs) :: ts => by
     intro h
-    have h1 := walkaboutG_plain inl dact exts t (fun n hn => h n (by simp [idsList, hn]))
-    obtain ⟨k1, k2⟩ := walkChildrenG_plain inl dact exts ts (fun n hn => h n (by simp [idsList, hn]))
-    cases hb : (walkabout exts t).2 <;>
-      simp [walkChildrenG, walkChildren, h1, hb, excOf, k1, k2]
+    have h1 := walkaboutG_spec inl dact exts (.node id act cs) (fun n hn => h n (by simp [idsList, hn]))
+    obtain ⟨k1, k2⟩ := walkChildrenG_spec inl dact exts ts (fun n hn => h n (by simp [idsList, hn]))
+    cases hb : stopsG dact id act <;>
+      simp [walkChildrenF, pruneListG, specList, h1, hb, excOf, k1, k2]
 end
 
-/-- **general_walk_partial**: when no `depart_*` raises and no `visit_*` visits nodes itself, the general
-walk is `walkabout` — so `prune_meaning`, `nested`, `balanced`, `enter_once`, `main_trace`, `escape_iff` and
-`builder_stack_empty` speak about it. -/
-theorem general_walk_partial (inl : Nat → List Nat) (dact : Nat → Act) (exts : List When) (t : Tree)
-    (h : Plain inl dact (ids t)) :
-    walkaboutG inl dact exts t = ((walkabout exts t).1, excOf (walkabout exts t).2) :=
-  walkaboutG_plain inl dact exts t h
+/-- **general_walk**: whatever the main visitor's `depart_*` methods raise, the walk is the documented walk over
+the tree pruned by the visit actions and by the SkipSiblings of the departures that ran. -/
+theorem general_walk (inl : Nat → List Nat) (dact : Nat → Act) (exts : List When) (t : Tree)
+    (h : NoInline inl (ids t)) :
+    (walkaboutG inl dact exts t).1 = specTrace exts (pruneG dact t) := by
+  simp [walkaboutG, walkaboutG_spec inl dact exts t h]
 
-/-- **balanced_general_partial**: … in particular every extension that entered a node leaves it. -/
-theorem balanced_general_partial (inl : Nat → List Nat) (dact : Nat → Act) (exts : List When) (t : Tree)
-    (h : Plain inl dact (ids t)) (e : Nat) (he : e < exts.length) :
+/-- **escape_general**: nothing but a SkipSiblings of the walked node itself (raised by its visit, or by its
+departure if that ran) leaves `walkabout`. -/
+theorem escape_general (inl : Nat → List Nat) (dact : Nat → Act) (exts : List When) (id : Nat) (act : Act)
+    (cs : List Tree) (h : NoInline inl (ids (.node id act cs))) :
+    (walkaboutG inl dact exts (.node id act cs)).2 = excOf (stopsG dact id act) := by
+  simp [walkaboutG, walkaboutG_spec inl dact exts (.node id act cs) h]
+
+/-- **balanced_general**: every extension that entered a node leaves it, nested like the pruned tree — also
+when departures raise. -/
+theorem balanced_general (inl : Nat → List Nat) (dact : Nat → Act) (exts : List When) (t : Tree)
+    (h : NoInline inl (ids t)) (e : Nat) (he : e < exts.length) :
+    restrict (.ext e) (walkaboutG inl dact exts t).1 = brackets (pruneG dact t) ∧
     isDyck (restrict (.ext e) (walkaboutG inl dact exts t).1) = true := by
-  rw [general_walk_partial inl dact exts t h]
-  exact balanced exts t e he
+  rw [general_walk inl dact exts t h, spec_restrict_ext exts e he]
+  have := dyck_brackets (pruneG dact t) [] []
+  simp at this
+  simp [isDyck, this, dyckRun]
+
+mutual
+theorem pruneG_plain (dact : Nat → Act) : (t : Tree) → (∀ n ∈ ids t, dact n = .none) → pruneG dact t = prune t
+  | .node id act cs => by
+    intro h
+    have hcs := pruneListG_plain dact cs (fun n hn => h n (by simp [ids, hn]))
+    cases act <;> simp [pruneG, prune, hcs]
+theorem pruneListG_plain (dact : Nat → Act) :
+    (ts : List Tree) → (∀ n ∈ idsList ts, dact n = .none) → pruneListG dact ts = pruneList ts
+  | [] => by intro _; simp [pruneListG, pruneList]
+  | (.node id act cs) :: ts => by
+    intro h
+    have hid : dact id = .none := h id (by simp [idsList, ids])
+    have h1 := pruneG_plain dact (.node id act cs) (fun n hn => h n (by simp [idsList, hn]))
+    have h2 := pruneListG_plain dact ts (fun n hn => h n (by simp [idsList, hn]))
+    cases act <;> simp [pruneListG, pruneList, stopsG, mainDeparts, hid, h1, h2]
+end
+
+/-- **general_walk_plain**: when no `depart_*` raises and no `visit_*` visits nodes itself, the general walk is
+`walkabout` — `prune_meaning`, `nested`, `enter_once`, `main_trace`, `builder_stack_empty` speak about it. -/
+theorem general_walk_plain (inl : Nat → List Nat) (dact : Nat → Act) (exts : List When) (t : Tree)
+    (h : Plain inl dact (ids t)) :
+    (walkaboutG inl dact exts t).1 = (walkabout exts t).1 := by
+  rw [general_walk inl dact exts t (fun n hn => (h n hn).1), prune_meaning,
+    pruneG_plain dact t (fun n hn => (h n hn).2)]
 
 def exTree3 : Tree := .node 0 .none [.node 1 .none [], .node 2 .none []]
 
 example : Plain (fun _ => []) (fun _ => .none) (ids exTree3) := by decide
+example : NoInline (fun _ => []) (ids exTree3) := by decide
 
-/-- `SkipSiblings` raised by the main visitor's departure of node 1: node 2 is skipped as asked, but the
-AFTER (and OUTTER) extension entered node 1 and never leaves it. -/
-theorem departure_prune_unbalanced_counterexample :
-    isDyck (restrict (.ext 0) (walkaboutG (fun _ => []) (fun n => if n = 1 then .skipSiblings else .none)
+/-- today: `SkipSiblings` raised by the main visitor's departure of node 1 skips node 2 and every extension
+leaves node 1 -/
+theorem new_departure_prune_balanced :
+    restrict (.ext 0) (walkaboutG (fun _ => []) (fun n => if n = 1 then .skipSiblings else .none)
+      [.after] exTree3).1 = [(.visit, 0), (.visit, 1), (.depart, 1), (.depart, 0)]
+    ∧ (walkaboutG (fun _ => []) (fun n => if n = 1 then .skipNode else .none) [.before] exTree3).2 = none := by
+  decide
+
+/-- HISTORICAL (before 97d973e): `SkipSiblings` raised by the main visitor's departure of node 1: node 2 was
+skipped as asked, but the AFTER (and OUTTER) extension entered node 1 and never left it. -/
+theorem old_departure_prune_unbalanced :
+    isDyck (restrict (.ext 0) (walkaboutGOld (fun _ => []) (fun n => if n = 1 then .skipSiblings else .none)
       [.after] exTree3).1) = false
-    ∧ isDyck (restrict (.ext 0) (walkaboutG (fun _ => []) (fun n => if n = 1 then .skipSiblings else .none)
+    ∧ isDyck (restrict (.ext 0) (walkaboutGOld (fun _ => []) (fun n => if n = 1 then .skipSiblings else .none)
       [.outter] exTree3).1) = false
-    ∧ (restrict (.ext 0) (walkaboutG (fun _ => []) (fun n => if n = 1 then .skipSiblings else .none)
+    ∧ (restrict (.ext 0) (walkaboutGOld (fun _ => []) (fun n => if n = 1 then .skipSiblings else .none)
       [.before] exTree3).1).contains (.visit, 2) = false := by decide
 
-/-- `SkipNode` raised by the main visitor's departure of node 1 leaves every enclosing `walkabout`:
-the root is entered and never left, by the main visitor and by every extension. -/
-theorem departure_prune_escape_counterexample :
-    (walkaboutG (fun _ => []) (fun n => if n = 1 then .skipNode else .none) [.before] exTree3).2 = some .skipNode
-    ∧ isDyck (restrict (.ext 0) (walkaboutG (fun _ => []) (fun n => if n = 1 then .skipNode else .none)
+/-- HISTORICAL (before 97d973e): `SkipNode` raised by the main visitor's departure of node 1 left every enclosing
+`walkabout`: the root was entered and never left, by the main visitor and by every extension. -/
+theorem old_departure_prune_escape :
+    (walkaboutGOld (fun _ => []) (fun n => if n = 1 then .skipNode else .none) [.before] exTree3).2 = some .skipNode
+    ∧ isDyck (restrict (.ext 0) (walkaboutGOld (fun _ => []) (fun n => if n = 1 then .skipNode else .none)
       [.before] exTree3).1) = false := by decide
 
-/-- the AST builder on `Module(body=[Expr(value=Call)])` = nodes 0, 1 and (inline) 2: every extension enters the
-value of the expression statement and never leaves it … -/
+/-- what `generic_visit` called from a `visit_*` method does (the AST builder's `visit_Expr` did, for
+`Module(body=[Expr(value=Call)])` = nodes 0, 1 and (inline) 2, until 090633d): every extension enters the inline
+node and never leaves it … -/
 theorem inline_visit_unbalanced_counterexample :
     isDyck (restrict (.ext 0) (walkaboutG (fun n => if n = 1 then [2] else []) (fun _ => .none) [.before]
       (.node 0 .none [.node 1 .none []])).1) = false := by decide
 
-/-- … and an AFTER extension enters the value (2) before the statement (1) it belongs to. -/
+/-- … and an AFTER extension enters it (2) before the node (1) it belongs to. -/
 theorem inline_visit_order_counterexample :
     restrict (.ext 0) (walkaboutG (fun n => if n = 1 then [2] else []) (fun _ => .none) [.after]
       (.node 0 .none [.node 1 .none []])).1
